@@ -89,6 +89,12 @@ pub struct OpM {
     pub checked_done: bool,
     pub after_ctx_drop: bool,
     pub after_term: bool,
+    /// subscription registered in a session that was reset afterwards (expired on reconnection): its stream may end
+    pub session_reset: bool,
+    /// finished on an earlier connection of the same Context
+    pub prev_conn_done: bool,
+    /// the request was written on an earlier connection of the same Context
+    pub ever_on_wire: bool,
     /// subscribe only: its SUBSCRIBE has been processed by the context, the stream is registered (session state, survives a resumption)
     pub registered: bool,
 }
@@ -113,6 +119,8 @@ pub struct ResumeOpts {
     pub receive_max: Option<u16>,
     pub max_packet: Option<u32>,
     pub expect_expired: bool,
+    /// no disconnection recorded (hook H1 not used): an ordinary second connect() + run() on the same Context
+    pub plain: bool,
 }
 
 impl Default for WorldCfg {
@@ -171,6 +179,9 @@ pub struct World {
     pub confirmed_inbound: usize,
     /// quota rules switched off (resumed connection whose Receive Maximum is below the number of re-sent handshakes)
     pub quota_fuzzy: bool,
+    /// Session Expiry Interval requested in CONNECT
+    pub sei: Option<u32>,
+    pub reconnects: u32,
 }
 
 #[derive(Default, Clone, Debug)]
@@ -229,9 +240,22 @@ impl World {
         } else {
             poster::verif::enable(false);
         }
-        let conn = ConnSpec { sei: cfg.sei, client_id: Some("c".into()), ..Default::default() };
-        sim.cmd(Cmd::Connect(conn));
-        sim.settle();
+        // one world in four reaches its CONNACK at the end of an extended authentication exchange, i.e. inside
+        // authorize() instead of connect(): whatever the CONNACK announces must be in force all the same
+        let via_auth = cfg.seed % 4 == 3;
+        if via_auth {
+            let conn = ConnSpec { sei: cfg.sei, client_id: Some("c".into()), auth_method: Some("m".into()), auth_data: Some(vec![1]), ..Default::default() };
+            sim.cmd(Cmd::Connect(conn));
+            sim.settle();
+            sim.feed_packet(&SPacket::Auth { reason: Some(0x18), props: vec![Prop::str(21, "m"), Prop::bin(22, b"c")] });
+            sim.settle();
+            sim.cmd(Cmd::Authorize(AuthSpec { reason: Some(0x18), method: Some("m".into()), data: Some(vec![2]), user_props: vec![] }));
+            sim.settle();
+        } else {
+            let conn = ConnSpec { sei: cfg.sei, client_id: Some("c".into()), ..Default::default() };
+            sim.cmd(Cmd::Connect(conn));
+            sim.settle();
+        }
         let mut props = Vec::new();
         if let Some(r) = cfg.receive_max {
             props.push(Prop::u16(33, r));
@@ -241,7 +265,7 @@ impl World {
         }
         sim.feed_packet(&SPacket::Connack { session_present: cfg.session_present, reason: 0, props });
         sim.settle();
-        let connack_sum = match sim.last_ctx_result("connect") {
+        let connack_sum = match sim.last_ctx_result(if via_auth { "authorize" } else { "connect" }) {
             Some(CtxOut::Conn(ConnOut::Connack(c))) => Some(c),
             _ => None,
         };
@@ -283,6 +307,8 @@ impl World {
             sub_ids_seen: std::collections::HashMap::new(),
             max_packet: cfg.max_packet,
             quota_fuzzy: false,
+            sei: cfg.sei,
+            reconnects: 0,
             confirmed_inbound: 0,
         };
         if w.connack_sum.is_none() {
@@ -358,6 +384,9 @@ impl World {
             checked_done: false,
             after_ctx_drop: self.ctx_dropped,
             after_term: self.term.is_some(),
+            session_reset: false,
+            prev_conn_done: false,
+            ever_on_wire: false,
             registered: false,
         }
     }
@@ -824,8 +853,17 @@ impl World {
     /// (absent = 65535 / unlimited, whatever the previous connection had announced).
     pub fn resume_full(&mut self, o: ResumeOpts) -> bool {
         let ResumeOpts { secs_ago, sei, connack_sei, expect_expired, .. } = o;
-        let (pubs, rels) = self.unfinished();
-        self.sim.cmd(Cmd::MarkDisconnected(secs_ago));
+        let (mut pubs, mut rels) = self.unfinished();
+        self.reconnects += 1;
+        self.expected_acks.clear();
+        if o.plain {
+            // without a recorded disconnection nothing is re-sent and nothing is reset
+            pubs.clear();
+            rels.clear();
+            self.sim.note(|| "second connection without a recorded disconnection".to_string());
+        } else {
+            self.sim.cmd(Cmd::MarkDisconnected(secs_ago));
+        }
         self.sim.note(|| format!("hook H1: disconnected {secs_ago} s ago; session expiry interval {:?}; new CONNACK receive maximum {:?}, maximum packet size {:?}", sei, o.receive_max, o.max_packet));
         self.sim.new_transport();
         let conn = ConnSpec { sei, client_id: Some("c".into()), ..Default::default() };
@@ -866,8 +904,17 @@ impl World {
         }
         let resent: Vec<WirePkt> = self.sim.wire[after_connect..].to_vec();
         self.attributed = self.sim.wire.len();
-        // old wire indices are meaningless now
-        for m in self.m.iter_mut() {
+        // old wire indices are meaningless now; operations that completed on the previous connection were judged there
+        for (i, m) in self.m.iter_mut().enumerate() {
+            if m.req_wire.is_some() {
+                m.ever_on_wire = true;
+            }
+            if m.req_wire.is_some() && self.sim.ops[i].out.is_some() {
+                m.checked_done = true;
+            }
+            if self.sim.ops[i].out.is_some() || m.dropped {
+                m.prev_conn_done = true;
+            }
             m.req_wire = None;
             m.rel_wire = None;
         }
@@ -897,6 +944,9 @@ impl World {
             self.ids_outstanding.clear();
             self.inbound_qos2.clear();
             for m in self.m.iter_mut() {
+                if m.registered {
+                    m.session_reset = true;
+                }
                 m.registered = false;
             }
             return false;
@@ -1130,7 +1180,7 @@ impl World {
                         .m
                         .iter()
                         .enumerate()
-                        .filter(|(_, o)| o.kind == Kind::Ping && o.submitted && o.req_wire.is_none())
+                        .filter(|(_, o)| o.kind == Kind::Ping && o.submitted && o.req_wire.is_none() && !o.prev_conn_done)
                         .min_by_key(|(_, o)| o.submit_step)
                         .map(|(i, _)| i);
                     match cand {
@@ -1142,7 +1192,7 @@ impl World {
                     }
                 }
                 CPacket::Disconnect(_) => {
-                    let cand = self.m.iter().position(|o| o.kind == Kind::Disc && o.submitted && o.req_wire.is_none());
+                    let cand = self.m.iter().position(|o| o.kind == Kind::Disc && o.submitted && o.req_wire.is_none() && !o.prev_conn_done);
                     match cand {
                         Some(i) => {
                             self.m[i].req_wire = Some(wi);
@@ -1410,7 +1460,7 @@ impl World {
         // --- nothing may report success before its packet is on the wire (holds in every situation, also with a stalled writer)
         let nops = if self.light { 0 } else { self.m.len() };
         for i in 0..nops {
-            if self.m[i].submitted && !self.m[i].dropped && !self.m[i].checked_done && self.m[i].req_wire.is_none() {
+            if self.m[i].submitted && !self.m[i].dropped && !self.m[i].checked_done && self.m[i].req_wire.is_none() && !self.m[i].ever_on_wire {
                 if let Some(o) = &self.sim.ops[i].out {
                     if o.is_ok() {
                         let k = self.m[i].kind;
@@ -1605,7 +1655,7 @@ impl World {
                 continue;
             }
             self.counters.stream_items_checked += items.len() as u64;
-            if ended && !self.ctx_dropped && self.term.is_none() {
+            if ended && !self.ctx_dropped && self.term.is_none() && !self.m[i].session_reset {
                 self.viol(P_C07, "C07/stream-ended-while-context-alive".into(), format!("stream of op{i} returned None while the context is alive and serving"));
                 self.m[i].stream_dropped = true;
             }
